@@ -2047,7 +2047,90 @@ func (r *runner) generate(g *gen.G, cfg Cfg, bg bool, o genOpts) ([]Step, int, M
 		now = timeout + int64(g.R.Intn(2))
 		return settle(5, 0) // its store round trips are answered at / just after the deadline (the clock stays there)
 	}
+	// two completions racing across the deadline: both read the promise while it is pending; A is resumed just before the
+	// deadline and writes a real completion, B is resumed at the deadline and writes the time-out; A's write is executed first,
+	// so B's changes no row and B has to answer from what is stored
+	completionRaceScenario := func() (M, bool) {
+		id := g.Pick(gen.ApiPromiseIds)
+		mk := func(k t_api.Kind) (*t_api.Request, string) {
+			nreq++
+			tid := fmt.Sprintf("r%d", nreq)
+			return &t_api.Request{Kind: k, Tags: map[string]string{"id": tid, "name": k.String(), "protocol": "dst"}}, tid
+		}
+		execTid := func(tid string) (M, bool) {
+			items := []Item{}
+			for _, h := range w.aio.pending {
+				if h.sqe.Submission.Kind == t_aio.Store && h.tid == tid {
+					items = append(items, Item{Tid: h.tid, Seq: h.seq, Mode: "ok"})
+				}
+			}
+			if len(items) == 0 {
+				return nil, false
+			}
+			return do(Step{Op: "exec", Items: items})
+		}
+		execBoth := func(a, b string) (M, bool) {
+			items := []Item{}
+			for _, t := range []string{a, b} {
+				for _, h := range w.aio.pending {
+					if h.sqe.Submission.Kind == t_aio.Store && h.tid == t {
+						items = append(items, Item{Tid: h.tid, Seq: h.seq, Mode: "ok"})
+					}
+				}
+			}
+			if len(items) == 0 {
+				return nil, false
+			}
+			return do(Step{Op: "exec", Items: items})
+		}
+		timeout := now + 60 + int64(g.R.Intn(3))*100
+		tags := map[string]string{}
+		if g.R.Intn(3) == 0 {
+			tags["resonate:timeout"] = "true"
+		}
+		rq, tid := mk(t_api.CreatePromise)
+		rq.CreatePromise = &t_api.CreatePromiseRequest{Id: id, Timeout: timeout, Tags: tags, Param: promise.Value{Headers: map[string]string{}, Data: []byte("d")}}
+		if info, pred := do(Step{Op: "submit", Tid: tid, Req: canon.Req(rq)}); info != nil {
+			return info, pred
+		}
+		if info, pred := settle(3, 1); info != nil {
+			return info, pred
+		}
+		if now >= timeout-8 || len(w.aio.pending) > 0 {
+			return nil, false
+		}
+		ra, ta := mk(t_api.CompletePromise)
+		ra.CompletePromise = &t_api.CompletePromiseRequest{Id: id, State: promise.Resolved, IdempotencyKey: nil, Value: promise.Value{Headers: map[string]string{"h": "a"}, Data: []byte("A")}}
+		rb, tb := mk(t_api.CompletePromise)
+		st := []promise.State{promise.Resolved, promise.Rejected, promise.Canceled}[g.R.Intn(3)]
+		rb.CompletePromise = &t_api.CompletePromiseRequest{Id: id, State: st, Strict: g.R.Intn(2) == 0, Value: promise.Value{Headers: map[string]string{}, Data: []byte("B")}}
+		tickAt := func(t int64) (M, bool) { now = t; return do(Step{Op: "tick", T: now}) }
+		seq := []func() (M, bool){
+			func() (M, bool) { return do(Step{Op: "submit", Tid: ta, Req: canon.Req(ra)}) },
+			func() (M, bool) { return tickAt(timeout - 4) }, // A reads
+			func() (M, bool) { return execTid(ta) },
+			func() (M, bool) { return do(Step{Op: "submit", Tid: tb, Req: canon.Req(rb)}) },
+			func() (M, bool) { return tickAt(timeout - 2) }, // A resumed before the deadline: writes its completion; B reads
+			func() (M, bool) { return execTid(tb) },           // only B's read: A's write stays pending
+			func() (M, bool) { return tickAt(timeout) },       // B resumed at the deadline: writes the time-out
+			func() (M, bool) { return execBoth(ta, tb) },      // A's write first, then B's (0 rows)
+			func() (M, bool) { return tickAt(timeout + 1) },
+		}
+		for _, f := range seq {
+			if info, pred := f(); info != nil {
+				return info, pred
+			}
+		}
+		return settle(4, 1)
+	}
 	for len(steps) < o.steps {
+		if (monitors["C01"] || monitors["C03"] || monitors["C04"]) && hasKind(t_api.CreatePromise) && hasKind(t_api.CompletePromise) && g.R.Intn(60) == 0 {
+			if info, pred := completionRaceScenario(); info != nil {
+				return steps, len(steps) - 1, info, pred
+			}
+			r.counts["completion_races"]++
+			continue
+		}
 		if (monitors["C04"] || monitors["C01"] || monitors["C03"]) && hasKind(t_api.CreatePromise) && g.R.Intn(45) == 0 {
 			if info, pred := straddleScenario(); info != nil {
 				return steps, len(steps) - 1, info, pred
